@@ -35,7 +35,7 @@ def run_check(pid, tier, seed, replay=None):
     if not tr.get("ok"):
         problems.append(("translator", tr.get("error", "")))
     elif tr.get("unknown", 0):
-        problems.append(("translator", f"{tr['unknown']} items the translator could not read (RUnknown)"))
+        problems.append(("translator", f"{tr['unknown']} items the translator could not read (RUnknown): " + "; ".join(tr.get("unknown_items", []))[:1500]))
 
     # 2. prove
     proof = {"ok": True, "theorems": [], "assumptions": {}, "wall": 0}
